@@ -113,6 +113,9 @@ def catalogue():
     @dev("pu_speed", "p1kind")
     def _(wn):
         _repl(wn, "p1"); wn.add_curve("hc1", "HEAD", [(0.05, 30.0)]); wn.add_pump("p1", "R1", "J1", "HEAD", "hc1", speed=1.2)
+    @dev("pu_speed_low", "p1kind")
+    def _(wn):
+        _repl(wn, "p1"); wn.add_pump("p1", "R1", "J1", "POWER", 15000.0, speed=0.8)
     @dev("pu_speedpat", "p1kind")
     def _(wn):
         _repl(wn, "p1"); wn.add_curve("hc1", "HEAD", [(0.05, 30.0)]); wn.add_pump("p1", "R1", "J1", "HEAD", "hc1", speed=1.0, pattern="pat2")
@@ -175,8 +178,12 @@ def catalogue():
         t = wn.options.time
         t.duration = 27 * 3600; t.hydraulic_timestep = 1800; t.quality_timestep = 300; t.rule_timestep = 600; t.pattern_timestep = 7200
         t.pattern_start = 3600; t.report_timestep = 3600; t.report_start = 7200; t.start_clocktime = 6 * 3600 + 1800; t.statistic = "AVERAGED"
-    @dev("o_clock_pm")
+    @dev("o_clock_pm", "clock")
     def _(wn): wn.options.time.start_clocktime = 13 * 3600 + 900
+    @dev("o_clock_noon", "clock")
+    def _(wn): wn.options.time.start_clocktime = 12 * 3600 + 900
+    @dev("o_clock_midnight", "clock")
+    def _(wn): wn.options.time.start_clocktime = 1800
     @dev("o_hyd")
     def _(wn):
         h = wn.options.hydraulic
@@ -200,7 +207,7 @@ def catalogue():
     @dev("o_reaction")
     def _(wn):
         r = wn.options.reaction
-        r.bulk_order = 2.0; r.wall_order = 0.0; r.tank_order = 1.0; r.bulk_coeff = -3.0e-6; r.wall_coeff = -1.0e-6
+        r.bulk_order = 2.0; r.wall_order = 0.0; r.tank_order = 1.0; r.bulk_coeff = -0.25; r.wall_coeff = -1.0e-6
         r.limiting_potential = 0.1; r.roughness_correl = -0.5
     @dev("o_energy")
     def _(wn):
@@ -217,6 +224,8 @@ def catalogue():
     def _(wn): wn.add_control("c1", C.Control(C.SimTimeCondition(wn, "=", 2 * 3600), act(wn, "p3", "status", LS.Closed)))
     @dev("k_time_offgrid", "ctl1")
     def _(wn): wn.add_control("c1", C.Control(C.SimTimeCondition(wn, "=", 3 * 3600 + 25 * 60), act(wn, "p3", "status", LS.Closed)))
+    @dev("k_time_seconds", "ctl1")
+    def _(wn): wn.add_control("c1", C.Control(C.SimTimeCondition(wn, "=", 3 * 3600 + 25 * 60 + 7), act(wn, "p3", "status", LS.Closed)))
     @dev("k_clock", "ctl1")
     def _(wn): wn.add_control("c1", C.Control(C.TimeOfDayCondition(wn, "=", 14 * 3600 + 1800), act(wn, "p3", "status", LS.Open)))
     @dev("k_level_above", "ctl2")
@@ -283,6 +292,12 @@ def paired():
     return P
 
 
+NAMED_PAIRS = [("o_reaction", "p_coeffs"), ("o_reaction", "t_bulk"), ("o_qual_chem", "s_mass"), ("o_qual_chem", "s_concen"),
+               ("o_qual_chem", "j_quality"), ("o_defpat", "j_second_demand"), ("o_defpat", "j_no_demand"), ("o_time", "k_clock"),
+               ("o_clock_pm", "k_clock"), ("o_time", "r_clock_noprio"), ("o_pdd", "j_pdd_params"), ("o_energy", "pu_energy"),
+               ("t_volcurve", "k_level_above"), ("p_cv", "k_time_close"), ("j_second_demand", "o_hyd"), ("o_hyd", "j_emitter")]
+
+
 def enumerate_specs(dmax, keep=None):
     """list of specs {'devs': [names...]}: base, singles, named pairs, and (dmax >= 2) all compatible pairs."""
     D = catalogue()
@@ -294,8 +309,14 @@ def enumerate_specs(dmax, keep=None):
         for r in reqs:
             if r in names:
                 out.append({"devs": [r, pn]})
+    for a, b in NAMED_PAIRS:
+        if a in names and b in names:
+            out.append({"devs": [a, b]})
     if dmax >= 2:
+        done = set(frozenset(p) for p in NAMED_PAIRS)
         for a, b in itertools.combinations(names, 2):
+            if frozenset((a, b)) in done:
+                continue
             if D[a][0] != D[b][0]:
                 out.append({"devs": [a, b]})
     return out
